@@ -4,14 +4,15 @@
 //! (including everything the node answered), the result class and the wallet's canonical
 //! snapshot afterwards, one JSON line per history.
 use grin_core::core::{Committed, Transaction};
-use grin_keychain::{ExtKeychain, Identifier, Keychain};
+use grin_keychain::{ExtKeychain, Identifier, Keychain, SwitchCommitmentType};
 use grin_util::secp::pedersen::Commitment;
 use serde_json::{json, Value};
-use std::collections::HashMap;
+use std::collections::{BTreeMap, HashMap};
 use uuid::Uuid;
 use vharness::libwallet::api_impl::{foreign, owner};
 use vharness::libwallet::verif_hooks::{tx as itx, updater};
-use vharness::libwallet::{BlockFees, Error, InitTxArgs, IssueInvoiceTxArgs, Slate, SlateState};
+use grin_util::ZeroingString;
+use vharness::libwallet::{BlockFees, Error, InitTxArgs, IssueInvoiceTxArgs, OutputData, Slate, SlateState, WalletLCProvider};
 use vharness::prng::{seed_from_env, Prng};
 use vharness::scen::*;
 use vharness::*;
@@ -43,12 +44,16 @@ struct Hist {
 	mined: Vec<(u64, Transaction)>,
 	/// per wallet: a transaction spending its outputs was broadcast although the wallet never reserved them
 	unreserved_spend: [bool; 2],
+	/// per wallet: every output its seed ever recorded (commit hex -> key, value, coinbase): what a
+	/// scan of the chain can find for that seed
+	known: [BTreeMap<String, ((u64, u64), u64, bool)>; 2],
+	restores: u64,
 }
 
 fn acct_name(a: u64) -> Option<&'static str> {
 	match a {
 		0 => Some("default"),
-		1 => Some("a1"),
+		1 => Some("account_1"),
 		_ => None,
 	}
 }
@@ -129,6 +134,7 @@ impl Hist {
 				extra["err"] = json!(m);
 			}
 		}
+		self.learn(i);
 		let mut snap = self.s.snapshot(i);
 		// replace slate uuids by their numbers
 		if let Some(txs) = snap["txs"].as_array_mut() {
@@ -162,6 +168,88 @@ impl Hist {
 			.collect();
 		snap["info"] = json!(infos);
 		self.steps[i].push(json!({"op": op, "rc": rc, "snap": snap, "extra": extra}));
+	}
+	fn learn(&mut self, i: usize) {
+		let outs: Vec<OutputData> = self.s.with(i, |b, _| b.iter().collect());
+		for o in outs {
+			if let Some(c) = &o.commit {
+				self.known[i]
+					.entry(c.clone())
+					.or_insert((key_pair(&o.key_id), o.value, o.is_coinbase));
+			}
+		}
+		// the change outputs a stored context promises: they reach the chain when the counterparty
+		// broadcasts the transaction, whether or not this wallet ever reserved (and so recorded) them
+		let ids: Vec<Uuid> = self.slate_nums.keys().cloned().collect();
+		for id in ids {
+			let found: Vec<(String, (u64, u64), u64)> = self.s.with(i, |b, m| {
+				let mut v = vec![];
+				if let Ok(c) = b.get_private_context(m, id.as_bytes()) {
+					if let Ok(kc) = b.keychain(m) {
+						for (kid, _, amount) in c.get_outputs() {
+							if let Ok(commit) = kc.commit(amount, &kid, SwitchCommitmentType::Regular) {
+								v.push((grin_util::ToHex::to_hex(&commit.0.to_vec()), key_pair(&kid), amount));
+							}
+						}
+					}
+				}
+				v
+			});
+			for (c, key, amount) in found {
+				self.known[i].entry(c).or_insert((key, amount, false));
+			}
+		}
+	}
+	/// the outputs of wallet i's seed currently in the UTXO set, in PMMR order (what a scan finds)
+	fn chain_outs(&self, i: usize) -> Value {
+		let chain = &self.s.node.chain;
+		let mut v = vec![];
+		for (c, (key, value, cb)) in &self.known[i] {
+			let commit = Commitment::from_vec(grin_util::from_hex(c).unwrap());
+			if let Some((_, pos)) = chain.get_unspent(commit).unwrap() {
+				let lock = if *cb { pos.height + 3 } else { pos.height };
+				v.push((
+					pos.pos,
+					json!({"key": [key.0, key.1], "value": value.to_string(), "height": pos.height,
+						"lock": lock, "cb": cb, "mmr": pos.pos}),
+				));
+			}
+		}
+		v.sort_by_key(|x| x.0);
+		json!(v.into_iter().map(|x| x.1).collect::<Vec<_>>())
+	}
+	/// The wallet is lost and restored from its recovery phrase: a new database, then owner::scan.
+	/// Contexts, log and stored transactions are gone; the outputs on chain come back.
+	fn restore(&mut self, i: usize) {
+		self.learn(i);
+		let phrase: String = {
+			let mut l = self.s.wallets[i].inst.lock();
+			let lc = l.lc_provider().unwrap();
+			(&*lc.get_mnemonic(None, ZeroingString::from("")).unwrap()).to_owned()
+		};
+		self.restores += 1;
+		let name = format!("w{}_r{}", i, self.restores);
+		let c = self.s.add_wallet(&name, Some(&phrase), false);
+		self.s.wallets.swap(i, c);
+		self.s.wallets.truncate(2);
+		let chain = self.chain_outs(i);
+		let view = self.node_view(i);
+		let res = guarded(|| owner::scan(self.s.wallets[i].inst.clone(), None, None, false, &None));
+		let rc = rc_of(&res);
+		// the second account exists again under its usual label (scan names it when it finds outputs)
+		let _ = self.s.with(i, |b, m| owner::create_account_path(b, m, "account_1"));
+		self.record(i, json!({"k": "restore", "chain": chain, "parent": 0, "view": view}), rc, json!({}));
+	}
+	/// owner::scan of the existing wallet from the first block (check / repair)
+	fn scan(&mut self, i: usize) {
+		self.learn(i);
+		let del = self.p.chance(1, 3);
+		let chain = self.chain_outs(i);
+		let view = self.node_view(i);
+		let parent = self.active(i);
+		let res = guarded(|| owner::scan(self.s.wallets[i].inst.clone(), None, Some(1), del, &None));
+		let rc = rc_of(&res);
+		self.record(i, json!({"k": "scan", "chain": chain, "del": del, "parent": parent, "view": view}), rc, json!({}));
 	}
 	fn record_with(&mut self, i: usize, op: Value, rc: Vec<u64>, extra: Value) {
 		self.record(i, op, rc, extra)
@@ -971,8 +1059,10 @@ impl Hist {
 		let w_fork = if self.profile == "c18" { 6 } else { 0 };
 		let w_episode = if self.profile == "c18" { 8 } else { 0 };
 		let w_pay = if self.profile == "c04" { 14 } else { 6 };
+		let w_restore = 2;
+		let w_scan = 2;
 		// the bands below plus a tail of 4 (reopen or nothing)
-		let total = 14 + 12 + 3 + w_init + 14 + 14 + 12 + 8 + w_cancel + w_cbkey + w_fork + w_episode + w_pay + 4;
+		let total = 14 + 12 + 3 + w_init + 14 + 14 + 12 + 8 + w_cancel + w_cbkey + w_fork + w_episode + w_pay + w_restore + w_scan + 4;
 		let roll = self.p.below(total);
 		let mut acc = 0;
 		let mut in_band = |w: u64| {
@@ -1025,6 +1115,10 @@ impl Hist {
 			} else {
 				self.pay_episode();
 			}
+		} else if in_band(w_restore) {
+			self.restore(i);
+		} else if in_band(w_scan) {
+			self.scan(i);
 		} else if self.p.chance(1, 2) {
 			// closing and opening the wallet forgets the active account (it is not persisted):
 			// for the model a reopen is a switch to the default account
@@ -1054,7 +1148,7 @@ fn main() {
 		s.add_wallet("w0", None, false);
 		s.add_wallet("w1", None, false);
 		for i in 0..2 {
-			s.with(i, |b, m| owner::create_account_path(b, m, "a1")).unwrap();
+			s.with(i, |b, m| owner::create_account_path(b, m, "account_1")).unwrap();
 		}
 		let mut hist = Hist {
 			s,
@@ -1065,6 +1159,8 @@ fn main() {
 			profile: profile.clone(),
 			mined: vec![],
 			unreserved_spend: [false, false],
+			known: [BTreeMap::new(), BTreeMap::new()],
+			restores: 0,
 		};
 		// a funded start (modelled as coinbase ops): the same number of blocks to each wallet, in
 		// half of the histories also to the second account of each wallet (so that per-account
